@@ -12,7 +12,7 @@ use std::collections::BTreeMap;
 
 pub struct HubAuth;
 const SENDERS: [&str; 11] = ["owner", "nominee", "updater", "dispatcher", "registry", "bsei_token", "stsei_token", "airdrop", "reward", "alice", "cosmos2contract"];
-const MSGS: [&str; 17] = ["update_config", "update_params", "set_owner", "accept_ownership", "bond", "bond_stsei", "bond_rewards", "update_global", "withdraw", "check_slashing",
+const MSGS: [&str; 18] = ["update_config_partial", "update_config", "update_params", "set_owner", "accept_ownership", "bond", "bond_stsei", "bond_rewards", "update_global", "withdraw", "check_slashing",
     "receive_unbond", "receive_convert", "claim_airdrop", "swap_hook", "redelegate_proxy", "migrate", "update_params_unpause"];
 fn u(v: &Value) -> u128 { v.as_str().map(|s| s.parse().unwrap()).unwrap_or_else(|| v.as_u64().unwrap_or(0) as u128) }
 const E18: u128 = 1_000_000_000_000_000_000;
@@ -41,6 +41,9 @@ impl Driver for HubAuth {
         let mut funds: Vec<Coin> = vec![];
         let msg = match kind {
             "update_config" => ExecuteMsg::UpdateConfig { rewards_dispatcher_contract: Some("evil".into()), validators_registry_contract: None, bsei_token_contract: None, stsei_token_contract: None, airdrop_registry_contract: None, rewards_contract: None, update_reward_index_addr: Some("evil".into()) },
+            "update_config_partial" => { let m = amount; let pick = |bit: u128, v: &str| if m & bit != 0 { Some(v.to_string()) } else { None };
+                ExecuteMsg::UpdateConfig { rewards_dispatcher_contract: pick(1, "dispatcher2"), validators_registry_contract: pick(2, "registry2"), bsei_token_contract: None, stsei_token_contract: None,
+                    airdrop_registry_contract: pick(4, "airdrop2"), rewards_contract: pick(8, "reward2"), update_reward_index_addr: pick(16, "updater2") } }
             "update_params" => ExecuteMsg::UpdateParams { epoch_period: Some(77), unbonding_period: None, peg_recovery_fee: dec(&input["fee"]), er_threshold: dec(&input["thr"]), paused: Some(paused), reward_denom: None },
             "update_params_unpause" => ExecuteMsg::UpdateParams { epoch_period: None, unbonding_period: None, peg_recovery_fee: None, er_threshold: None, paused: if amount % 2 == 0 { Some(false) } else { None }, reward_denom: None },
             "set_owner" => ExecuteMsg::SetOwner { new_owner_addr: "evil".into() },
@@ -58,6 +61,7 @@ impl Driver for HubAuth {
             "redelegate_proxy" => ExecuteMsg::RedelegateProxy { src_validator: "validator0".into(), redelegations: vec![("validator1".into(), Coin::new(5, "usei"))] },
             _ => ExecuteMsg::MigrateUnbondWaitList { limit: None },
         };
+        let cfg0 = basset_sei_hub::state::CONFIG.load(&deps.storage).unwrap();
         let snap: Vec<(Vec<u8>, Vec<u8>)> = deps.storage.range(None, None, Order::Ascending).collect();
         let res = execute(deps.as_mut(), mock_env(), mock_info(sender, &funds), msg);
         let ok = res.is_ok();
@@ -67,7 +71,7 @@ impl Driver for HubAuth {
         if paused && !exempt { c.insert("ha#C11.paused_blocks_everything_else".to_string(), !ok); }
         // C10: the designated principal of every privileged message (mock_env's contract address is the hub itself)
         let allowed: Option<Vec<&str>> = match kind {
-            "update_config" | "update_params" | "update_params_unpause" | "set_owner" => Some(vec!["owner"]),
+            "update_config" | "update_config_partial" | "update_params" | "update_params_unpause" | "set_owner" => Some(vec!["owner"]),
             "accept_ownership" => Some(vec!["nominee"]),
             "bond_rewards" => Some(vec!["dispatcher"]),
             "update_global" => Some(vec!["updater", "registry"]),
@@ -91,6 +95,19 @@ impl Driver for HubAuth {
             } else if !kind.starts_with("update_params") && kind != "migrate" {
                 c.insert("ha#C20.only_update_params_changes_parameters".to_string(), p1 == p);
             }
+        }
+        if ok && kind == "update_config_partial" {
+            // C20: a field the update omits keeps its stored value; a given one is stored
+            let cfg1 = basset_sei_hub::state::CONFIG.load(&deps.storage).unwrap();
+            let cn = |x: &str| Some(deps.api.addr_canonicalize(x).unwrap());
+            let m = amount;
+            let good = cfg1.reward_dispatcher_contract == (if m & 1 != 0 { cn("dispatcher2") } else { cfg0.reward_dispatcher_contract.clone() })
+                && cfg1.validators_registry_contract == (if m & 2 != 0 { cn("registry2") } else { cfg0.validators_registry_contract.clone() })
+                && cfg1.airdrop_registry_contract == (if m & 4 != 0 { cn("airdrop2") } else { cfg0.airdrop_registry_contract.clone() })
+                && cfg1.rewards_contract == (if m & 8 != 0 { cn("reward2") } else { cfg0.rewards_contract.clone() })
+                && cfg1.update_reward_index_addr == (if m & 16 != 0 { deps.api.addr_canonicalize("updater2").unwrap() } else { cfg0.update_reward_index_addr.clone() })
+                && cfg1.bsei_token_contract == cfg0.bsei_token_contract && cfg1.stsei_token_contract == cfg0.stsei_token_contract && cfg1.creator == cfg0.creator;
+            c.insert("ha#C20.config_omitted_fields_keep_their_value".to_string(), good);
         }
         let _ = snap;
         (c, json!({"accepted": ok, "err": res.err().map(|e| e.to_string()), "paused_after": p1.paused}))
